@@ -11,7 +11,8 @@ values for which the C++ result is defined.
 Part 2 (proof): binaryOpNode/ternaryOpNode/leftUnaryOpNode::evaluate are
 compiled by the C++ front end against stub children that count evaluations.
 
-Part 3 (bounded): literal typing of primitive::load/loadHex/loadBinary.
+Part 3 (bounded): literal typing of primitive::load/loadHex/loadBinary (+ the real parseInt/parseBinary and lex
+helpers) against the C++ literal grammar and type table in contracts/C14/literal_spec.h.
 """
 import os
 import re
@@ -34,7 +35,14 @@ EXPLANATION = (
     'C++ front end against ghost children that count evaluations: && / || with a deciding left operand do not evaluate '
     'the right one, ?: evaluates exactly one branch and has the common type, every other operand is evaluated exactly once. '
     'No loops except areBitwiseEqual (constant trip count 4/8, fully unwound): complete proofs, not bounded. '
-    'Literal typing (primitive::load) is not covered.')
+    'Literal typing (bounded): primitive::load, loadHex, loadBinary, parseInt(const char*), parseBinary, uppercase and '
+    'lex::skipWhitespace/skipFrom/inCharset are C-extracted and run on every text up to the stated length that is a C++ '
+    'integer, decimal floating or boolean literal (decided by contracts/C14/literal_spec.h, written from [lex.icon] Table 7, '
+    '[lex.fcon], [lex.bool]), followed by any character that ends the token: no error, result tag = the C++ type of the '
+    'literal (first type of its list that holds the value), result value = the literal\'s value (integers, bool), cursor '
+    'consumed exactly the literal, recorded spelling = the literal; floating literals: type, which text reaches the '
+    'decimal-to-binary conversion and that its result is stored unchanged (rounded to float for f).  The recursive call of '
+    'load on the exponent is replaced by a contract that group literal/exponent-contract proves of the same text.')
 TRUSTED = ['cbmc 6.11.0 C front end; SAT back end (minisat) for integer and byte-level cases, cvc5 1.x (bit-vector + '
            'floating-point theories) for * / % and every case with a floating operand',
            'cbmc 6.11.0 C++ front end for the three evaluate() bodies (skeleton classes in contracts/C14/expr_skeleton.hpp: '
@@ -45,7 +53,11 @@ TRUSTED = ['cbmc 6.11.0 C front end; SAT back end (minisat) for integer and byte
            'with (_Bool) where C++ yields bool and C yields int, OCCA_FORCE_ERROR -> ghost flag; cross-checked in the '
            'thorough tier by the fidelity groups (same concrete operands through the compiled library and the extracted text)',
            'contracts/C14/spec.h: tag-of-expression by _Generic, exact cross-type value comparison, definedness predicates',
-           'GCC builtins __builtin_{add,sub,mul}_overflow as modelled by CBMC (used only in the definedness precondition)']
+           'GCC builtins __builtin_{add,sub,mul}_overflow as modelled by CBMC (used only in the definedness precondition)',
+           'literal typing: contracts/C14/literal_spec.h (grammar, value and type of a C++ literal; C++17, LP64), '
+           'contracts/C14/literal_harness.h (std::string(first,count)[+"suffix"] as a NUL-terminated copy, ghost record of '
+           'primitive::source, OCCA_ERROR as failing assertion + end of path, exponent contract), CBMC library models of '
+           'strlen/strncmp, SAT back end CaDiCaL; C extraction rules as for C12 (reference cursor -> pointer + alias macro)']
 ASSUMPTIONS = ['LP64, two\'s complement, IEC 60559 float/double, round-to-nearest (CBMC default, = host default); '
                'int32_t=int, int64_t=long (static-asserted in spec.h)',
                'integer promotions and usual arithmetic conversions agree between C (CBMC) and C++ for bool, the eight '
@@ -58,8 +70,20 @@ ASSUMPTIONS = ['LP64, two\'s complement, IEC 60559 float/double, round-to-neares
                'operator pairs that are ill-formed in C++ (% & | ^ << >> ~ with a floating operand) are outside the property and not checked',
                'tree evaluation: every entry of namespace op carries exactly one raw operator bit; a condition / left operand of && || '
                'is "false"/"true" by the real to<bool>() (abstracted as a free truth value per child); primitive tags are exactly '
-               'one of none, the eleven arithmetic tags, ptr']
-NOT_REACHED = ['primitive::load / loadHex / loadBinary (literal typing) - not built; native evidence of defects in proposed/C14/NOTES.md',
+               'one of none, the eleven arithmetic tags, ptr',
+               'literal typing: libc is ASSUMED: ::atof(text) and sscanf(text, "%lf") return strtod(text), ::strtof(text, NULL) '
+               'returns strtof(text) - the double / float nearest to the longest prefix of the text that is a decimal floating '
+               'constant.  The conversion itself is not modelled: strtod(literal) and strtof(literal) are two unconstrained, '
+               'unrelated values per run; the C++ value of a floating literal is strtod(text), of an f-suffixed one strtof(text)',
+               'literal typing: the literal is followed by a character that ends the preprocessing token ([lex.ppnumber]: no '
+               'identifier character, digit, period, digit separator; no sign after e E p P); the text starts at the cursor (no sign: '
+               'a leading + or - is an operator in C++, the tokenizer only calls load on text that starts a literal)']
+NOT_REACHED = ['literals longer than the bounds of the literal/* groups; long double literals (l/L on a floating literal: occa has no '
+               'tag), hexadecimal floating literals, digit separators, user-defined literals, the z suffix; integer literals that '
+               'fit no type of their list (ill-formed)',
+               'the decimal-to-binary conversion of floating literals itself (libc strtod/strtof, assumed correctly rounded)',
+               'load with a leading sign (includeSign and text starting with + or -), primitive(const char*) / primitive(std::string) '
+               'constructors, the json number path (json.cpp calls load with the sign)',
                'compound-assignment and increment/decrement operator functions (assign, addEq ... leftShiftEq, leftIncrement ...): '
                'their operands must be lvalues, literals are not, so no constant expression of the property reaches them',
                'primitive::compare (<=> has no arithmetic result type in C++)',
@@ -759,9 +783,20 @@ def lit_parse(ctx):
     src = ctx.read(STRING_CPP)
     if not re.search(r'udim_t\s+parseInt\s*\(\s*const\s+std::string\s*&\s*str\s*\)\s*\{\s*return\s+occa::parseInt\(\(const char\*\)\s*str\.c_str\(\)\);\s*\}', src):
         raise Undecided('extraction break: parseInt(const std::string&) is no longer the forwarder to parseInt(const char*)')
-    for nm, body in (('parseFloat', r'return\s+::atof\(str\.c_str\(\)\);'), ('parseDouble', r'return\s+occa::parseDouble\(str\.c_str\(\)\);')):
-        if not re.search(r'double\s+%s\s*\(\s*const\s+std::string\s*&\s*str\s*\)\s*\{\s*%s\s*\}' % (nm, body), src):
-            raise Undecided('extraction break: %s(const std::string&) changed (assumed contract: strtod of the text)' % nm)
+    # parseFloat / parseDouble are libc calls (assumed contracts): which libc function each one is, is read off the real text
+    def oneliner(sig, body):
+        return re.search(r'double\s+%s\s*\{\s*%s\s*\}' % (sig, body), src)
+    fwd = r'return\s+(?:occa::)?%s\(str\.c_str\(\)\);'
+    if oneliner(r'parseFloat\s*\(\s*const\s+std::string\s*&\s*str\s*\)', r'return\s+::atof\(str\.c_str\(\)\);'):
+        strtof = 0
+    elif (oneliner(r'parseFloat\s*\(\s*const\s+std::string\s*&\s*str\s*\)', fwd % 'parseFloat') and
+          oneliner(r'parseFloat\s*\(\s*const\s+char\s*\*\s*c\s*\)', r'(?://[^\n]*\s*)*return\s+::strtof\(c,\s*NULL\);')):
+        strtof = 1
+    else:
+        raise Undecided('extraction break: parseFloat is neither ::atof(text) nor ::strtof(text, NULL) (assumed contract: libc)')
+    if not (oneliner(r'parseDouble\s*\(\s*const\s+std::string\s*&\s*str\s*\)', fwd % 'parseDouble') and
+            re.search(r'double\s+parseDouble\s*\(\s*const\s+char\s*\*\s*c\s*\)\s*\{\s*double\s+ret;\s*#if[^\n]*\n\s*sscanf\(c,\s*"%lf",\s*&ret\);', src)):
+        raise Undecided('extraction break: parseDouble(text) is no longer sscanf(text, "%lf") (assumed contract: strtod of the text)')
     up = extract_function(ctx, STRING_HPP, WS('inline char uppercase(const char c) {'), name='uppercase(char)')
     out = [rewrite(up, [('C: inline -> static', r'\binline\b', 'static', 1)])]
     sig = _ptr_sig('udim_t', 'parseBinary', 'const char*c')
@@ -775,7 +810,7 @@ def lit_parse(ctx):
                             ('C: lex::skipWhitespace(c) on the by-value parameter: reference argument -> &c',
                              r'\blex::skipWhitespace\(\s*c\s*\)', 'lex_skipWhitespace(&c)', 1),
                             ('C: parseBinary -> occa_parseBinary', r'\bparseBinary\(', 'occa_parseBinary(', 1)]))
-    return '\n\n'.join(t.strip() for t in out), [up, pb, pi]
+    return '\n\n'.join(t.strip() for t in out), [up, pb, pi], strtof
 
 
 def _scalar_to_primitive(ex, text, is_load=False):
@@ -908,11 +943,12 @@ def lit_shapes(tier):
 def literal_groups(ctx, unit):
     from vp import replay_C14
     lex_c, e1 = lit_lex(ctx)
-    parse_c, e2 = lit_parse(ctx)
+    parse_c, e2, strtof = lit_parse(ctx)
     load_c, e3 = lit_load(ctx)
     body = '\n'.join([
         unit.common, '#include <string.h>', 'typedef uint64_t udim_t;',
         '#define OCCA_UNSAFE 0   /* CMakeLists.txt: set(OCCA_UNSAFE OFF) */',
+        '#define C14_PARSEFLOAT_IS_STRTOF %d   /* read off the real body of occa::parseFloat */' % strtof,
         '#include "C14/spec.h"', '#include "C14/literal_spec.h"',
         '#define C14_LITERAL_MODELS\n#include "C14/literal_harness.h"\n#undef C14_LITERAL_MODELS',
         '/* ---- extracted from %s ---- */' % LEX_CPP, lex_c,
@@ -941,9 +977,9 @@ def literal_groups(ctx, unit):
             bound=sh['what'] + ', followed by any character that ends the token' +
                   (' and then by arbitrary text' if sh['tail'] else ' and the end of the buffer'),
             param='literal length <= %d' % n,
-            assumptions=['parseFloat/parseDouble (atof, sscanf %lf) return strtod of the text they are given: the double nearest to '
-                         'its longest prefix that is a decimal floating constant (assumed, libc); for an f-suffixed literal the '
-                         'value obligation is therefore "the float nearest to that double", not "the float nearest to the text"',
+            assumptions=['libc: ::atof and sscanf "%lf" return strtod(text), ::strtof returns strtof(text): the double / the float nearest '
+                         'to the longest prefix of the text that is a decimal floating constant; the conversion is not modelled, the '
+                         'two results are unconstrained and unrelated (so (float) strtod(text) is NOT taken to be strtof(text))',
                          'std::string(first, count) [+ "suffix"] . c_str() is modelled by a NUL-terminated copy (contracts/C14/literal_harness.h)',
                          'strlen/strncmp: CBMC library models'],
             note='loops unwound to the buffer length (unwinding assertions on); the recursive call of load on the exponent is '
@@ -965,7 +1001,87 @@ def literal_groups(ctx, unit):
         replay=None)
     g.extra_cbmc = ['--sat-solver', 'cadical']
     groups.append(g)
+    if ctx.tier == 'thorough' or os.environ.get('C14_FIDELITY'):
+        groups.append(literal_fidelity_group(ctx, body, e3 + e2 + e1 + unit.common_ex))
     return groups
+
+
+LITFID_PROG = r'''
+#include <occa/types/primitive.hpp>
+#include <cstdio>
+#include <cstring>
+#include <string>
+using occa::primitive;
+static void one(int i, const char *text) {
+  const char *c = text; primitive r; bool raised = false; unsigned long long bits = 0;
+  try { r = primitive::load(c, false); } catch (...) { raised = true; }
+  if (!raised && r.type != occa::primitiveType::none) memcpy(&bits, &r.value, r.sizeof_() <= 8 ? r.sizeof_() : 8);
+  printf("%d %d %d %llu %ld\n", i, (int) raised, r.type, bits, (long) (c - text));
+}
+int main() {
+@BODY@
+  return 0;
+}
+'''
+
+
+def literal_fidelity_group(ctx, body, exs):
+    """Translation fidelity (DESIGN 3.5) for the literal unit: concrete literal texts through the compiled library
+    (native) and through the extracted C text (CBMC) must give the same (raised, tag, value bits, characters consumed).
+    Floating values come from libc (assumed): only tag and cursor are compared for them."""
+    from vp import replaylib, replay_C14
+    tv = tag_values(ctx)
+    lits = list(replay_C14.LIT_EDGES) + ['0X1F', '0B101', '1.5L', '12abc', '0x', '09', '.', 'truex', '1ulx', '0b102']
+    prog = LITFID_PROG.replace('@BODY@', '\n'.join('  one(%d, "%s");' % (i, t) for i, t in enumerate(lits)))
+    try:
+        rc, out, src = replaylib.compile_run(ctx, 'literal_fidelity', prog, timeout=300)
+    except Exception as e:
+        raise Undecided('literal fidelity: native program could not be built/run: %s' % str(e)[-400:])
+    native = {}
+    for l in out.splitlines():
+        f = l.split()
+        if len(f) == 5 and f[0].isdigit():
+            native[int(f[0])] = tuple(int(x) for x in f[1:])
+    if rc != 0 or len(native) != len(lits):
+        raise Undecided('literal fidelity: native run gave %d of %d results (rc=%s)' % (len(native), len(lits), rc))
+    nmax = max(len(t) for t in lits) + 1
+    hs = []
+    for i, t in enumerate(lits):
+        raised, tag, bits, used = native[i]
+        isf = tag in (tv['float_'], tv['double_'])
+        val = '1' if (isf or raised or tag == tv['none']) else 'c14_value_bits(r) == %dul' % bits
+        hs.append('  { c14_set_text("%s"); const char *cur = c14_text; verif_raised = 0; c14_fp_value = nondet_double();\n'
+                  '    primitive r = primitive_load(&cur, 0);\n'
+                  '    __CPROVER_assert(verif_raised == %d && (verif_raised || (r.type == %d && %s && cur - c14_text == %d)), '
+                  '"fidelity literal %s: the extracted C text computes what the compiled library computes (tag, value bits, cursor)"); ++n; }'
+                  % (t, raised, tag, val, used, t))
+    src = body + '''
+static void c14_set_text(const char *t) {
+  size_t k = 0;
+  for (; t[k] != 0; ++k) c14_text[k] = t[k];
+  for (; k < C14_LIT_MAX + 2; ++k) c14_text[k] = 0;
+}
+static unsigned long c14_value_bits(primitive r) {
+  switch (r.type) {
+  case primitiveType_bool_: return r.value.bool_;
+  case primitiveType_int8_: case primitiveType_uint8_: return r.value.uint8_;
+  case primitiveType_int16_: case primitiveType_uint16_: return r.value.uint16_;
+  case primitiveType_int32_: case primitiveType_uint32_: return r.value.uint32_;
+  case primitiveType_int64_: case primitiveType_uint64_: return r.value.uint64_;
+  default: return 0;
+  }
+}
+void h_literal_fidelity(void) {
+  int n = 0;
+''' + '\n'.join(hs) + '\n#ifdef CANARY\n  __CPROVER_assert(n != %d, "canary: all literal fidelity vectors executed");\n#endif\n}\n' % len(hs)
+    g = Group(
+        name='literal/fidelity', sources={'literal.c': src}, entry='h_literal_fidelity', lang='c',
+        defines=['C14_LIT_MAX=%d' % nmax, 'C14_EXP_MAX=%d' % nmax, 'C14_SHAPE_SETUP=', 'C14_SHAPE_FILTER=1', 'C14_LIT_TAIL'],
+        unwind=nmax + 4, checks=ARITH_CHECKS + PTR_CHECKS, min_obligations=len(hs), timeout=900, functions=exs,
+        canary='CANARY', canary_label='canary', strength='proof', param='%d concrete literal texts' % len(hs),
+        note='concrete texts; expected (raised, tag, bits, cursor) printed by a native program linked against the freshly built libocca')
+    g.extra_cbmc = ['--sat-solver', 'cadical']
+    return g
 
 
 def build(ctx):
